@@ -122,19 +122,74 @@ func checkC16(c *Check) {
 	c.Req(!la.escaped[reconnect], "C16.R2:reconnect-not-escaped", r2, p.Pos(reconnect.Pos()), "reconnect used as a value / goroutine")
 	// on the closed edge clientDo returns ClosedError
 	{
-		good := false
-		for _, in := range reachFrom(clientDo, nil, nil, closedFalse) {
-			if r, ok := in.(*ssa.Return); ok && len(r.Results) == 2 {
-				if mi, ok := r.Results[1].(*ssa.MakeInterface); ok {
-					if nn := namedOf(mi.X.Type()); nn != nil && nn.Obj().Name() == "ClosedError" {
-						good = true
+		isClosedErr := func(v ssa.Value) bool {
+			if mi, ok := v.(*ssa.MakeInterface); ok {
+				if nn := namedOf(mi.X.Type()); nn != nil && nn.Obj().Name() == "ClosedError" {
+					return true
+				}
+			}
+			return false
+		}
+		// the gate: clientDo itself, or the helper of its package that tests `closed` for it
+		gate := clientDo
+		var gateCall *ssa.Call
+		hasClosedTest := func(fn *ssa.Function) bool {
+			found := false
+			for _, b := range fn.Blocks {
+				for i := range b.Succs {
+					if cnd, pol, ok := edgeFact(b, i); ok && closedFalse(cnd, pol) {
+						found = true
 					}
 				}
 			}
+			return found
+		}
+		if !hasClosedTest(clientDo) {
+			for _, ci := range callsIn(clientDo, func(ci ssa.CallInstruction) bool {
+				g := staticCallee(ci)
+				return g != nil && fnPkg(g) == fnPkg(clientDo) && len(g.Blocks) > 0 && hasClosedTest(g)
+			}) {
+				if call, ok := ci.(*ssa.Call); ok && gateCall == nil {
+					gateCall, gate = call, staticCallee(ci)
+				}
+			}
+		}
+		good := false
+		for _, in := range reachFrom(gate, nil, nil, closedFalse) {
+			if r, ok := in.(*ssa.Return); ok && len(r.Results) >= 1 {
+				res := retResults(r)
+				if res == nil {
+					continue
+				}
+				if isClosedErr(res[len(res)-1]) {
+					good = true
+				} else if gate != clientDo {
+					good = false // the helper leaves the closed edge with something else
+					break
+				}
+			}
+		}
+		var gateErr ssa.Value
+		if gate != clientDo && good {
+			// the helper's error must come back out of clientDo unchanged
+			gateErr = extractOf(gateCall, gate.Signature.Results().Len()-1)
+			good = false
+			allInstrs(clientDo, func(in ssa.Instruction) {
+				if r, ok := in.(*ssa.Return); ok && len(r.Results) == 2 && gateErr != nil && resolve(r.Results[1]) == gateErr {
+					good = true
+				}
+			})
 		}
 		c.Req(good, "C16.R2:closed-edge-returns-ClosedError", r2, p.Pos(clientDo.Pos()), "the closed edge does not return ClosedError")
 		// the user callback runs only after the closed test
-		for _, in := range reachFrom(clientDo, nil, nil, closedFalse) {
+		gateOK := func(cond ssa.Value, pol bool) bool {
+			if gate == clientDo {
+				return closedFalse(cond, pol)
+			}
+			x, isNil, ok := nilTest(cond, pol)
+			return ok && isNil && gateErr != nil && resolve(x) == gateErr
+		}
+		for _, in := range reachFrom(clientDo, nil, nil, gateOK) {
 			if call, ok := in.(*ssa.Call); ok && !call.Call.IsInvoke() {
 				if _, isParam := call.Call.Value.(*ssa.Parameter); isParam {
 					c.Bad("C16.R2:call-after-close", r2, p.InstrPos(in), "the operation callback is reachable without the closed test")
